@@ -182,7 +182,9 @@ def admin_variant(rec, path, rng, fail, cnt):
             else:
                 red = chi.ReducedMechanisticModel(model)
                 fixed = [q for q in range(1, n + 1) if q not in subset]
-                red.fix_parameters({pub[q - 1]: float(values[q - 1]) for q in fixed})
+                # (one call per parameter, in a shuffled order: the result depends on the fixed set only)
+                for q in rng.permutation(fixed):
+                    red.fix_parameters({pub[int(q) - 1]: float(values[int(q) - 1])})
                 if list(red.parameters()) != [pub[q - 1] for q in subset]:
                     fail('Published', 'free_parameters_after_administration', dict(got=red.parameters()))
                     return
